@@ -487,6 +487,45 @@ Proof.
   rewrite F in X. contradiction.
 Qed.
 
+
+(* the candidates of pick_random_key are determined by the key types alone:
+   any other attribute of a key (private or public-only, kid, material) is
+   irrelevant *)
+Lemma filter_map_comm {A} (f : A -> A) (p : A -> bool) (l : list A) :
+  (forall x, p (f x) = p x) -> filter p (map f l) = map f (filter p l).
+Proof.
+  intro H. induction l as [|a l IH]; simpl; auto. rewrite H. destruct (p a); simpl; rewrite IH; reflexivity.
+Qed.
+
+Theorem pick_candidates_kty_only tbl (f : key -> key) ks alg :
+  (forall k, k_kty (f k) = k_kty k) ->
+  pick_candidates tbl (map f ks) alg =
+  match pick_candidates tbl ks alg with Ok c => Ok (map f c) | Err e => Err e end.
+Proof.
+  intro H. unfold pick_candidates. destruct (algkeys_get tbl alg) as [o|]; simpl; auto.
+  destruct o as [[|t ts]|]; auto.
+  rewrite filter_map_comm; auto. intro x. unfold kty_in. rewrite H. reflexivity.
+Qed.
+
+Theorem pick_candidates_complete tbl ks alg c kts :
+  pick_candidates tbl ks alg = Ok c -> algkeys_get tbl alg = Ok (Some kts) -> kts <> [] ->
+  forall k, In k c <-> In k ks /\ In (k_kty k) kts.
+Proof.
+  unfold pick_candidates. intros P A N k. rewrite A in P. simpl in P.
+  destruct kts as [|t ts]; [contradiction|]. inversion P. rewrite filter_In. rewrite (kty_in_In k (t :: ts)). tauto.
+Qed.
+
+Theorem pick_some tbl ch ks alg kts k0 :
+  algkeys_get tbl alg = Ok (Some kts) -> kts <> [] -> In k0 ks -> In (k_kty k0) kts ->
+  exists k, pick_random_key tbl ch ks alg = Ok (Some k).
+Proof.
+  intros A N I T. unfold pick_random_key.
+  destruct (pick_candidates tbl ks alg) as [c|] eqn:P.
+  - assert (In k0 c) as Ic by (apply (pick_candidates_complete tbl ks alg c kts P A N); auto).
+    destruct c as [|x r]; [contradiction|]. simpl. eauto.
+  - unfold pick_candidates in P. rewrite A in P. discriminate.
+Qed.
+
 Lemma ch_idx_ok i : chooser_ok (ch_idx i).
 Proof.
   unfold chooser_ok, ch_idx. intros x r.
